@@ -10,11 +10,12 @@ class PCheck:
     judge must be able to re-judge a case loaded from a replay file (st=None)."""
 
     def __init__(self, pid, rule, gen, judge, quick, thorough, assumptions=(), floor=30, level="exploration",
-                 known_match=None, probes=None, shards=None, extra=None):
+                 known_match=None, probes=None, shards=None, extra=None, corpus=True):
         self.pid, self.rule, self.gen, self.judge = pid, rule, gen, judge
         self.quick, self.thorough = quick, thorough
         self.assumptions, self.floor, self.level = list(assumptions), floor, level
         self.known_match, self.probes, self.shards, self.extra = known_match, probes, shards, extra
+        self.corpus = corpus
 
     def worker(self, shard, seed, n, params):
         st = Stats()
@@ -49,6 +50,18 @@ class PCheck:
         if os.environ.get("VERIF_N"):
             total = int(os.environ["VERIF_N"])
         st = common.run_sharded(self.worker, seed, total, {"tier": tier}, shards=self.shards)
+        if self.corpus:
+            # regression tier: saved cases of repaired defects (corpus/<id>/*.json) are replayed on every run
+            import glob
+            for path in sorted(glob.glob(os.path.join(common.ROOT, "corpus", self.pid, "*.json"))):
+                case = json.load(open(path))
+                st.classes["corpus_regression_cases"] += 1
+                try:
+                    self.replay_case(case)
+                except Violation as v:
+                    st.violations.append({"case": case, "msg": "corpus case %s fails again: %s" % (os.path.basename(path), v.msg)})
+                except (Discard, Inconclusive):
+                    pass
         if self.probes:
             self.probes(st, tier, seed)
         extra = self.extra(st) if self.extra else None
